@@ -253,6 +253,139 @@ def build():
     return reg
 
 
+def _de_bruijn(k, n):
+    a, seq = [0] * k * n, []
+
+    def db(t, p):
+        if t > n:
+            if n % p == 0:
+                seq.extend(a[1:p + 1])
+        else:
+            a[t] = a[t - p]
+            db(t + 1, p)
+            for j in range(a[t - p] + 1, k):
+                a[t] = j
+                db(t + 1, t)
+    db(1, 1)
+    return seq + seq[:n - 1]
+
+
+def backlight_and_glyph_obligations(HostLCD):
+    """executed on the firmware mock against the real host model (BOUNDED): (1) one script that walks every ordered triple of the seven
+    display/backlight/brightness commands (a de Bruijn sequence), with literal and with variable arguments: after every command the
+    backlight pin level is 0 when the host model says off and the host's brightness_level when on; (2) glyph uploads under control flow:
+    the rows last uploaded to each slot equal the host model's glyph table"""
+    import time as _time
+    from progs.diff import transpile
+    from fwsim.run import run_sketch
+    from progs.devdiff import IMPORTS
+    out = []
+    CMDS = [("display", True), ("display", False), ("backlight", True), ("backlight", False), ("brightness", 0), ("brightness", 60), ("brightness", 255)]
+    seq = [CMDS[i] for i in _de_bruijn(7, 3)]
+    for form in ("literal", "variable"):
+        t0 = _time.time()
+        lines = ["d = LCD(rs=22, en=23, d4=24, d5=25, d6=26, d7=27, backlight_pin=10)"]
+        for k, (m, v) in enumerate(seq):
+            lines += ([f"d.{m}({v})"] if form == "literal" else [f"{'tb' if isinstance(v, bool) else 'ti'}{k % 3} = {v}", f"d.{m}({'tb' if isinstance(v, bool) else 'ti'}{k % 3})"]) + [f"mon.write('m{k}')"]
+        src = IMPORTS + "\n".join(lines) + "\n"
+        problems = []
+        try:
+            host = HostLCD(rs=22, en=23, d4=24, d5=25, d6=26, d7=27, backlight_pin=10)
+            expect = []
+            for m, v in seq:
+                getattr(host, m)(v)
+                expect.append(host.brightness_level if host.backlight_on else 0)
+            cpp, err = transpile(src)
+            if cpp is None:
+                problems.append("rejected: " + str(err))
+            else:
+                r = run_sketch(cpp, passes=0)
+                if not r.get("compiled"):
+                    problems.append("does not compile: " + r.get("errors", "")[-200:])
+                else:
+                    level, k = None, 0
+                    for e in r["events"]:
+                        if e.startswith("W:10:"):
+                            level = int(e.split(":")[2])
+                        elif e.startswith("S:m"):
+                            if level != expect[k] and not (level is None and expect[k] == 255 and k < 3):
+                                problems.append(f"after command #{k} ({seq[k][0]}({seq[k][1]}), preceded by {[c[0] + '(' + str(c[1]) + ')' for c in seq[max(0, k - 2):k]]}): "
+                                                f"backlight pin is at {level}, the host model says {expect[k]}")
+                                if len(problems) >= 4:
+                                    break
+                            k += 1
+                    if k < len(seq) and not problems:
+                        problems.append(f"only {k} of {len(seq)} markers reached")
+        except Exception as ex:
+            problems.append(f"{type(ex).__name__}: {ex}")
+        out.append({"name": f"C17/backlight/every-command-triple/{form}-arguments", "status": "discharged" if not problems else "sat", "backend": "bounded-differential", "bounded": True,
+                    "where": f"{len(seq)} commands covering every ordered triple of display/backlight/brightness ({form} arguments): pin level = host model after each command",
+                    "time": round(_time.time() - t0, 2), "replay": {"problems": problems[:4]}, "replay_confirmed": bool(problems)})
+    GLYPH = {
+        "upload-in-untaken-branch-then-same-upload": "c = 0\nif c > 5:\n    d.glyph(0, [1, 2, 3, 4, 5, 6, 7, 8])\nd.glyph(0, [1, 2, 3, 4, 5, 6, 7, 8])\n",
+        "helper-overwrites-between-two-equal-uploads": "def other():\n    d.glyph(1, [31, 0, 31, 0, 31, 0, 31, 0])\nd.glyph(1, [4, 4, 4, 4, 4, 4, 4, 4])\nother()\nd.glyph(1, [4, 4, 4, 4, 4, 4, 4, 4])\n",
+        "loop-body-reuploads": "k = 0\nwhile True:\n    d.glyph(2, [1, 1, 1, 1, 1, 1, 1, 1])\n    k = k + 1\n    d.glyph(2, [2, 2, 2, 2, 2, 2, 2, 2])\n    sleep(5)\n",
+        "two-slots-straight-line": "d.glyph(0, [1, 2, 4, 8, 16, 8, 4, 2])\nd.glyph(7, [31, 31, 0, 0, 31, 31, 0, 0])\nd.glyph(0, [0, 0, 0, 0, 0, 0, 0, 1])\n",
+    }
+    for gname, body in GLYPH.items():
+        t0 = _time.time()
+        src = IMPORTS + "d = LCD(rs=22, en=23, d4=24, d5=25, d6=26, d7=27)\n" + body
+        problems = []
+        try:
+            from progs.diff import host_events
+            import ast as _ast
+            cpp, err = transpile(src)
+            if cpp is None:
+                problems.append("rejected: " + str(err))
+            else:
+                r = run_sketch(cpp, passes=2)
+                if not r.get("compiled"):
+                    problems.append("does not compile: " + r.get("errors", "")[-200:])
+                else:
+                    last_fw = {}
+                    order_fw = []
+                    for e in r["events"]:
+                        if e.startswith("G:"):
+                            _, slot, rows = e.split(":")
+                            last_fw[int(slot)] = [int(x) for x in rows.split(",")]
+                            order_fw.append((int(slot), last_fw[int(slot)]))
+                    # the host: run the same statements on the real class and record every upload in execution order
+                    order_host = []
+                    host = HostLCD(rs=22, en=23, d4=24, d5=25, d6=26, d7=27)
+                    orig = HostLCD.glyph
+
+                    def rec(self, slot, bitmap, _o=orig):
+                        _o(self, slot, bitmap)
+                        order_host.append((int(slot), [int(x) & 31 for x in self.glyphs[int(slot)]]))
+                    HostLCD.glyph = rec
+                    try:
+                        class _Stop(Exception):
+                            pass
+                        state = {"n": 0}
+
+                        def fake_sleep(ms):
+                            state["n"] += 1
+                            if state["n"] >= 2:
+                                raise _Stop()
+                        try:
+                            exec(compile(body, "<glyph>", "exec"), {"d": host, "sleep": fake_sleep})
+                        except _Stop:
+                            pass
+                    finally:
+                        HostLCD.glyph = orig
+                    final_host = {}
+                    for slot, rows in order_host:
+                        final_host[slot] = rows
+                    if last_fw != final_host:
+                        problems.append(f"glyph memory after the run: firmware {last_fw}, host model {final_host}")
+        except Exception as ex:
+            problems.append(f"{type(ex).__name__}: {ex}")
+        out.append({"name": f"C17/glyph/{gname}", "status": "discharged" if not problems else "sat", "backend": "bounded-differential", "bounded": True,
+                    "where": f"glyph script '{gname}': the rows last uploaded to each slot on the device equal the host model's glyph table", "time": round(_time.time() - t0, 2),
+                    "replay": {"script": src, "problems": problems}, "replay_confirmed": bool(problems)})
+    return out
+
+
 def extra_obligations(mods, tier, seed):
     """end-to-end complement of the template contracts: LCD commands with literal arguments through the real parser and emitter,
     cells on the firmware mock against the host LCD's buffer at every marker (BOUNDED)"""
@@ -292,6 +425,7 @@ def extra_obligations(mods, tier, seed):
     out.append({"name": "C17/host/display-objects-are-independent", "status": "discharged" if not bad else "sat", "backend": "bounded-native", "bounded": True,
                 "where": "three host LCD objects: glyph tables, buffers and geometry of one are not affected by operations on another", "time": round(_time.time() - t0, 3),
                 "replay": {"bad": bad[:3]}, "replay_confirmed": bool(bad)})
+    out += backlight_and_glyph_obligations(HostLCD)
     from progs.concat import concat_obligations
     out += concat_obligations("C17", {"LCD": ("d = LCD(rs=22, en=23, d4=24, d5=25, d6=26, d7=27)",
                                               ["d.write(0, 0, 'hi')", "d.line(1, 'x', align='right')", "d.message('a', 'b')", "d.clear()", "d.progress(0, 50)", "d.backlight(True)"])})
